@@ -45,16 +45,19 @@ def run(facts, rep, tier):
 
     bodies = 0
     auto_decls = {}           # decl id -> (name, type) of every variable with automatic storage in a start() function: by-value parameters, non-reference locals
+    all_auto = {}
     for f in starts:
+        tun = f.tu.name
         for p_ in f.d['params']:
-            if not p_.get('isref'): auto_decls[p_['decl']] = (p_['name'], p_.get('ctype'))
+            if not p_.get('isref'): all_auto[(tun, p_['decl'])] = (p_['name'], p_.get('ctype'))
         for n in f.nodes():
             if n.k == 'decl':
                 for v in n.vars:
-                    if not v.get('isref'): auto_decls[v['decl']] = (v['name'], v.get('ctype'))
+                    if not v.get('isref'): all_auto[(tun, v['decl'])] = (v['name'], v.get('ctype'))
     for f in starts:
         inst_label = f.name[:110]
         is_runnable = not f.d.get('instantiation')
+        auto_decls = {d: v for (t_, d), v in all_auto.items() if t_ == f.tu.name}       # declaration ids are per translation unit
         res = run_paths(facts, f, EvDomain())
         for P, E in res:
             if P.end not in ('exit', 'return'): continue
